@@ -259,6 +259,8 @@ def run(R, env):
                 R.set_undecided(["C18.R4"], "the 1.0.0 -> 1.1.0 migration converts the old records in a separate pass (map .. collect) before saving them; only the convert-and-save loop over the old map's range is modelled")
             R.ob("C18.R4", ns + ":same-key-full-range-same-namespace", good_k and src_ok, "new record saved under %s; expected the key of each element of the old map's full range (old item %s, read errors propagated)" % (fmt(k)[:100], old_item), loc=o["loc"], fn=mk)
             old = ("field", elem, "1") if elem is not None else None
+            if v[0] != "agg":
+                v = shared.written_agg(prog, o)  # a conversion closure / `upgrade()` method is looked through
             if old is None or v[0] != "agg":
                 R.ob("C18.R4", ns + ":record", False, "unrecognised record %s" % fmt(v)[:120], loc=o["loc"], fn=mk)
                 continue
